@@ -253,7 +253,7 @@ SUBCHECKS = [
              rule="(family, parameters, exp/plain) x grid constructor x 0..2 refinements x declared "
                   "representation in {as constructed, ZERO (finite variation only), CENTER, ONEONE, TILDE}; "
                   "non-trivial = refined or non-uniform grid or re-declared representation or infinite variation",
-             strategy=strat_1d, budget={"quick": 240, "thorough": 3000},
+             strategy=strat_1d, budget={"quick": 720, "thorough": 3000},
              shards={"quick": 16, "thorough": 16},
              essential_labels=("infinite-variation", "rep=CENTER", "rep=ONEONE")),
     SubCheck("mean-copula-margins", body_copula, classify_copula,
